@@ -144,7 +144,16 @@ func analyseBox(c *Ctx, sr, rd *types.Func, wantEE bool) *boxVerdict {
 				out.problems = append(out.problems, fmt.Sprintf("SE|header size field %s is not Size() = %s of the box being encoded", showValShallow(tv.Vs[0]), size))
 			}
 		}
-		// W-DE
+		// W-DE, header form: boxes that keep the form write a header as long as the one they were decoded from
+		if headerFormKept[sr.Name()] != "" && len(sw.T.Items) > 0 && sw.T.Items[0].Kind == "hdr" {
+			hl := in.atom("hdr.Hdrlen", 62, false)
+			diff := in.mkBin("-", sw.T.Items[0].W, in.mkBin("*", cI(8), hl, typInfo{64, true}), typInfo{64, true})
+			in.splitOnFixed(diff)
+			if pd := polyOf(diff).String(); pd != "0" {
+				hlv, _ := hl.ConstI()
+				out.problems = append(out.problems, fmt.Sprintf("DE|header form not kept: decoded from a %d-byte header, EncodeSW writes a header of %s bits", hlv, polyOf(sw.T.Items[0].W)))
+			}
+		}
 		en := normalizeChildren(in.flatten(sw.T, false, nil, c))
 		if debugDump {
 			fmt.Printf("CFG %s\n  D: %s\n  E: %s\n  obj: %s\n", cfgT(in.cfg).String(), nodesString(dn), nodesString(en), canonVal(d.obj, 0, map[*Obj]bool{}))
